@@ -9,7 +9,7 @@ func init() {
 			"each pool model's state-mutating swap returns exactly what its pure calculation returned for the same arguments and applies exactly those coins to the reserves (sibling agreement).",
 		NotCovered:  []string{"agreement with the constant-weighted-product formula to powPrecision", "monotonicity of the stableswap invariant", "value conservation over sequences (iterative series and binary search)"},
 		Assumptions: []string{"osmomath.Pow / binary search accuracy (C13)"},
-		MinObl:      30,
+		MinObl:      40,
 		Run:         runC04,
 	})
 }
@@ -58,4 +58,21 @@ func runC04(c *rules.Ctx) {
 	c.HasCall(S+"SwapOutAmtGivenIn", "stableswap.Pool.updatePoolLiquidityForSwap", []string{"p", "tokenIn", "sdk.NewCoins(stableswap.Pool.CalcOutAmtGivenIn(p,ctx,tokenIn,tokenOutDenom,spreadFactor)#0)"}, true, "stableswap: the reserves change by exactly (caller's in, calculated out)", "")
 	c.HasCall(S+"SwapInAmtGivenOut", "stableswap.Pool.updatePoolLiquidityForSwap", []string{"p", "sdk.NewCoins(stableswap.Pool.CalcInAmtGivenOut(p,ctx,tokenOut,tokenInDenom,spreadFactor)#0)", "tokenOut"}, true, "stableswap: the reserves change by exactly (calculated in, caller's out)", "")
 	c.StoreField(S+"updatePoolLiquidityForSwap", "PoolLiquidity", "sdk.Coins.Sub(sdk.Coins.Add(p.PoolLiquidity, tokensIn), tokensOut)", "stableswap: reserves = reserves + in − out")
+	// ---- balancer single-asset join/exit formulas: the spread factor always works for the pool
+	const BF = "x/gamm/pool-models/balancer."
+	c.Let("FR_IN", "balancer.feeRatio(normalizedTokenWeightIn,spreadFactor)")
+	c.Let("FR_OUT", "balancer.feeRatio(normalizedTokenWeightOut,spreadFactor)")
+	c.Returns(BF+"feeRatio", 0, "sdkmath.LegacyDec.Sub(sdkmath.LegacyOneDec(), sdkmath.LegacyDec.Mul(sdkmath.LegacyDec.Sub(sdkmath.LegacyOneDec(), normalizedWeight), spreadFactor))", "fee ratio = 1 − (1 − normalized weight)·spread factor (≤ 1)", "")
+	c.Returns(BF+"calcPoolSharesOutGivenSingleAssetIn", 0, "sdkmath.LegacyDec.Neg(balancer.solveConstantFunctionInvariant(sdkmath.LegacyDec.Add(tokenBalanceIn, sdkmath.LegacyDec.Mul(tokenAmountIn, {FR_IN})), tokenBalanceIn, normalizedTokenWeightIn, poolShares, sdkmath.LegacyOneDec()))", "shares for a single-asset deposit: the deposit is *reduced* by the fee ratio before the invariant is solved", "")
+	c.Returns(BF+"calcSingleAssetInGivenPoolSharesOut", 0, "sdkmath.LegacyDec.Quo(sdkmath.LegacyDec.Neg(balancer.solveConstantFunctionInvariant(sdkmath.LegacyDec.Add(totalPoolSharesSupply, sharesAmountOut), totalPoolSharesSupply, sdkmath.LegacyOneDec(), tokenBalanceIn, normalizedTokenWeightIn)), {FR_IN})", "deposit needed for exact shares: the fee-free amount is *grossed up* by the fee ratio", "")
+	c.Returns(BF+"calcPoolSharesInGivenSingleAssetOut", 0, "sdkmath.LegacyDec.Quo(balancer.solveConstantFunctionInvariant(sdkmath.LegacyDec.Sub(tokenBalanceOut, sdkmath.LegacyDec.Quo(tokenAmountOut, {FR_OUT})), tokenBalanceOut, normalizedTokenWeightOut, totalPoolSharesSupply, sdkmath.LegacyOneDec()), sdkmath.LegacyDec.Sub(sdkmath.LegacyOneDec(), exitFee))", "shares burned for an exact single-asset withdrawal: the withdrawal is *grossed up* by the fee ratio and the shares by 1/(1−exit fee)", "")
+	// ---- the single-asset leg of a join is priced against the caller's (interim) reserve and share total
+	const SJ = B + "calcSingleAssetJoin"
+	c.CallArg(SJ, "balancer.calcPoolSharesOutGivenSingleAssetIn", 0, "sdkmath.Int.ToLegacyDec(tokenInPoolAsset.Token.Amount)", "priced against the reserve handed in by the caller (already updated by the proportional leg of a multi-asset join)")
+	c.CallArg(SJ, "balancer.calcPoolSharesOutGivenSingleAssetIn", 1, "sdkmath.LegacyDec.Quo(sdkmath.Int.ToLegacyDec(tokenInPoolAsset.Weight), sdkmath.Int.ToLegacyDec(balancer.Pool.GetTotalWeight(p)))", "with that asset's normalized weight")
+	c.CallArg(SJ, "balancer.calcPoolSharesOutGivenSingleAssetIn", 2, "sdkmath.Int.ToLegacyDec(totalShares)", "and the share total handed in by the caller")
+	c.CallArg(SJ, "balancer.calcPoolSharesOutGivenSingleAssetIn", 3, "sdkmath.Int.ToLegacyDec(tokenIn.Amount)", "for the deposited amount")
+	c.Returns(SJ, 0, "sdkmath.LegacyDec.TruncateInt(balancer.calcPoolSharesOutGivenSingleAssetIn(...)) | sdkmath.ZeroInt()", "shares minted for a single-asset join are truncated", "")
+	// ---- keeper side of the all-asset join (shared with C02): what is minted is what the pool model credited
+	c.PairedArgN("x/gamm/keeper.Keeper.JoinPoolNoSwap", "gammtypes.CFMMPoolI.JoinPoolNoSwap", "gammkeeper.Keeper.applyJoinPoolStateChange", "all-asset join: shares minted = shares the pool model returned; coins moved = coins given to it")
 }
